@@ -1238,11 +1238,21 @@ func c03EveryDatagramHandled(c *Ctx) {
 			handled++
 			continue
 		}
+		isReadErr := func(v ssa.Value) bool {
+			ex, ok := v.(*ssa.Extract)
+			return ok && ex.Tuple == ssa.Value(read) && ex.Index == 2
+		}
 		failed := anyFact(pa.facts, func(f Fact) bool {
-			return cmpFact(f, token.NEQ, func(v ssa.Value) bool {
-				ex, ok := v.(*ssa.Extract)
-				return ok && ex.Tuple == ssa.Value(read) && ex.Index == 2
-			}, isNilConst)
+			if cmpFact(f, token.NEQ, isReadErr, isNilConst) {
+				return true
+			}
+			// errors.Is(err, x) / errors.As(err, &x) holding implies err != nil
+			if cl, ok := f.V.(*ssa.Call); ok && f.T && len(cl.Call.Args) > 0 {
+				if n := commonName(&cl.Call); (n == "errors.Is" || n == "errors.As") && isReadErr(cl.Call.Args[0]) {
+					return true
+				}
+			}
+			return false
 		})
 		if !failed {
 			bad = "a path from the read to " + p.pos(pa.end.Pos()) + " (" + pa.endWhy + ") skips handlePacket although the read succeeded; facts " + factStrings(pa.facts)
